@@ -23,3 +23,17 @@ func Gen(store string) func(t *rapid.T) *Case {
 		return c
 	}
 }
+
+func GenConc(t *rapid.T) *ConcCase {
+	c := &ConcCase{ErrHandler: rapid.IntRange(0, 4).Draw(t, "eh") != 0, Honour: rapid.Bool().Draw(t, "honour"), Procs: rapid.SampledFrom([]int{2, 4, 16}).Draw(t, "procs")}
+	np := rapid.IntRange(2, 6).Draw(t, "np")
+	for p := 0; p < np; p++ {
+		n := rapid.IntRange(1, 5).Draw(t, "n")
+		var ks []string
+		for i := 0; i < n; i++ {
+			ks = append(ks, rapid.SampledFrom([]string{"ok", "ok", "ok", "reject", "block", "block", "slow"}).Draw(t, "kind"))
+		}
+		c.Publishers = append(c.Publishers, ks)
+	}
+	return c
+}
